@@ -429,8 +429,6 @@ Proof.
     apply andb_prop in T. destruct T as [T _]. apply andb_prop in T. destruct T as [T _].
     apply Bool.eqb_prop in T. unfold needs_check. rewrite T. reflexivity.
   - exact conv_sites_ok.
-  - pose proof guards_ok as G.
-    repeat (apply andb_prop in G; let H := fresh "G" in destruct G as [G H]).
-    repeat split; try (apply cexpr_eqb_eq; assumption).
-    cbn [lib_pre] in *. f_equal. apply cexpr_eqb_eq. assumption.
+  - repeat split; try (apply cexpr_eqb_eq; vm_compute; reflexivity).
+    cbn [lib_pre]. f_equal. apply cexpr_eqb_eq. vm_compute. reflexivity.
 Qed.
